@@ -39,7 +39,11 @@ def E(i, reads=False, **kw):
 PRELUDE = lambda: {"stages": [F.mk_stage("B", prints="", builtin="alias zq=1")], "capture": False, "unop": set(),
                    "nosentinel": True, "tag": "PRE"}
 
+# regression sequences: the repaired defects (must pass) and the classes that remain
 REPLAYS = {
+    "builtin-lookahead-leak": lambda: [S([F.mk_stage("B", redirs=["1&2", "1t5"], prints="o", builtin="alias")])],
+    "herestring-nonfirst": lambda: [S([E(0), E(1, True, frm="h")])],
+    "herestring-reader-gone": lambda: [S([F.mk_stage("N", frm="h")]), S([E(0, frm="h", redirs=["1t31"])], unop=[31])],
     "dup-fd-left-open": lambda: [S([E(0, redirs=["2&1"])]), S([E(0, redirs=["1&2"])])],
     "capture-with-redirect": lambda: [S([E(0, redirs=["1t5"])], cap=True)],
     "builtin-capture-pipes": lambda: [S([F.mk_stage("B", prints="o", builtin="alias")], cap=True)],
@@ -72,7 +76,8 @@ def run_sequences(ctx, res, prop, seqs, label, strace=False, extra_fds=()):
 
     with ThreadPoolExecutor(max_workers=max(2, C.NCPU // 2)) as ex:
         outs = list(ex.map(one, range(len(seqs))))
-    res.count("L2_" + label, len(seqs))
+    # one evaluation = one command run and compared (main steps and their probes)
+    res.count("L2_" + label, sum(len(o.get("full", [1])) for o in outs))
     for ix, out in enumerate(outs):
         if "models" not in out:
             apply_verdict(res, prop, dict(out, full=[], models={False: []}, died=False, texts=[]), known, counters)
@@ -184,7 +189,7 @@ def capture_fail_runs(ctx, res, prop):
     hp = os.path.join(ctx.helpers, "hp")
     known = known_classes(prop)
     for N in (7, 8):
-        cases = {v: C.case("run", v, "1", "2", "-", "0,1,2", "E:-:-:-|E:-:-:-") for v in ("00000", "00010")}
+        cases = {v: C.case("run", v, "1", "2", "-", "0,1,2", "E:-:-:-|E:-:-:-") for v in ("11101", "11111")}
         mods = {v: F.parse_model(C.run_model(ctx.model["FDS"], C.write_cases("fds_cf_%d.txt" % os.getpid(), [c]))[0])
                 for v, c in cases.items()}
         work = tempfile.mkdtemp(prefix="fdscf_")
@@ -203,9 +208,9 @@ def capture_fail_runs(ctx, res, prop):
         if ran:
             res.violate(kind="oracle", layer="L2", input=line, observed="stages %s ran although the capture pipe() fails" % ran,
                         failing_input=True, note="capture pipe failure is not handled")
-        elif mf == exp["00010"]:
-            res.extra.setdefault("accepted", []).append("capture-pipe failure releases the stage pipes (ulimit -n %d)" % N)
-        elif mf == exp["00000"] and "capture-pipe-fail" in known:
+        elif mf == exp["11111"]:
+            pass
+        elif mf == exp["11101"] and "capture-pipe-fail" in known:
             res.known("capture-pipe-fail", "class=capture-pipe-fail what=%s observed=`%s` -> minfd %s (3 expected)" % (
                 known["capture-pipe-fail"].get("what", "")[:100], line.replace(hp, "hp"), mf))
         else:
